@@ -398,7 +398,9 @@ fn check_cause(w: &mut World, uid: Uid, ev: &Ev) {
             if coalesced > 1 {
                 w.count("pings_coalesced");
             }
-            if w.srcs[uid].cbs_in_dispatch > 1 {
+            // (a synthetic event of a lifecycle wrapper is a callback of its own, not a ping callback)
+            w.srcs[uid].ping_cbs_in_dispatch += 1;
+            if w.srcs[uid].ping_cbs_in_dispatch > 1 {
                 w.alarm("C03.coalesce", "two-callbacks-in-one-dispatch", format!("ping source #{} invoked twice in dispatch {}", uid, d));
             }
         }
